@@ -156,7 +156,8 @@ def dispatch_wrappers(prog, res):
                     ok = ok and const_val(extra[0]) == (1 if suffix == "_bmi2" else 0)
             res.check(ok, R, f.name, f.loc, "single call to %s forwarding its parameters in order" % body,
                       "%s no longer simply forwards its parameters to %s" % (f.name, body))
-    res.need(R, 14)
+    has_bmi2 = sum(1 for f in prog.all_functions() if f.name.endswith("_body_bmi2") or (f.name.endswith("_bmi2") and prog.has_fn(f.name[:-5] + "_default")))
+    res.need(R, 14 if has_bmi2 >= 4 else 8)        # a build without DYNAMIC_BMI2 compiles no _bmi2 variants
 
 
 def one_sequence_decoder(prog, res):
